@@ -721,4 +721,3 @@ func (s *psim) byzantine(x *pst, keys [][]byte, honest [][]byte) ([][]byte, []cl
 		return nodes, claims
 	}
 }
-
